@@ -273,6 +273,11 @@ func Issue(c *Cert, parent *x509.Certificate, parentKey *Key) (*x509.Certificate
 	}
 	if c.SignedBy != nil {
 		signKey = c.SignedBy
+		if par != tmpl && c.IssuerCN == nil {
+			// keep the issuer NAME, drop the issuer key: crypto/x509 refuses a
+			// parent whose public key does not match the signing key
+			par = &x509.Certificate{RawSubject: par.RawSubject, Subject: par.Subject}
+		}
 	}
 	der, err := x509.CreateCertificate(rand.Reader, tmpl, par, c.Key.Public(), signKey.Priv)
 	if err != nil {
